@@ -12,6 +12,9 @@ func runCase(c Case) string {
 	switch c.Op {
 	case "SCAN":
 		src := unhex(c.Fields[0])
+		if len(src) <= 4096 {
+			parser.Scan(" " + src)
+		}
 		first := fmtTokens(parser.Scan(src))
 		// history: Scan is a function of its argument
 		if len(src) <= 4096 {
